@@ -449,6 +449,85 @@ def h4_objstm(timeout=300, part=None, **kw):
                          timeout, concretize=conc, part=part, int_lo=0, int_hi=max(lens.values()) + 1)
 
 
+# ---- faults inside a content stream: operands of every operator kind, entries of an inline image dictionary
+CONTENT_TOKENS = [
+    b"q", b"1", b"0", b"0", b"1", b"5", b"5", b"cm", b"2", b"w", b"[3 1]", b"0", b"d", b"1", b"J", b"1", b"j", b"4", b"M", b"/GS0", b"gs", b"/Perceptual", b"ri", b"1", b"i",
+    b"0.5", b"g", b"0.1", b"0.2", b"0.3", b"rg", b"0", b"0", b"0", b"1", b"k", b"0.5", b"G", b"0.1", b"0.2", b"0.3", b"RG", b"0", b"0", b"0", b"1", b"K",
+    b"/DeviceRGB", b"cs", b"0.1", b"0.2", b"0.3", b"sc", b"/DeviceRGB", b"CS", b"0.1", b"0.2", b"0.3", b"SCN", b"0.4", b"0.5", b"0.6", b"scn",
+    b"10", b"10", b"m", b"20", b"20", b"l", b"1", b"2", b"3", b"4", b"5", b"6", b"c", b"1", b"2", b"3", b"4", b"v", b"1", b"2", b"3", b"4", b"y", b"h", b"S",
+    b"10", b"10", b"30", b"30", b"re", b"W", b"n", b"1", b"1", b"5", b"5", b"re", b"f", b"/Sh0", b"sh",
+    b"BT", b"/F1", b"10", b"Tf", b"12", b"TL", b"1", b"Tc", b"2", b"Tw", b"90", b"Tz", b"1", b"Ts", b"0", b"Tr", b"10", b"100", b"Td", b"5", b"-5", b"TD",
+    b"1", b"0", b"0", b"1", b"20", b"80", b"Tm", b"(hi)", b"Tj", b"T*", b"[(a) 20 (b)]", b"TJ", b"(c)", b"'", b"1", b"2", b"(d)", b'"', b"ET",
+    b"/Tag", b"BMC", b"/Tag", b"<< /MCID 0 >>", b"BDC", b"EMC", b"/Tag", b"MP", b"/Tag", b"<< /A 1 >>", b"DP", b"/Im0", b"Do", b"/Fm1", b"Do", b"10", b"0", b"d0", b"Q",
+]
+CONTENT_BAD = [b"", b"/N", b"(s)", b"[1 /A (x)]", b"[]", b"<< /A 1 >>", b"<< >>", b"true", b"null", b"7", b"-2.5", b"99999999999999999999", b"<41>"]
+CONTENT_OPERATORS = {b"q", b"cm", b"w", b"d", b"J", b"j", b"M", b"gs", b"ri", b"i", b"g", b"rg", b"k", b"G", b"RG", b"K", b"cs", b"sc", b"CS", b"SCN", b"scn", b"m", b"l", b"c", b"v", b"y", b"h", b"S",
+                     b"re", b"W", b"n", b"f", b"sh", b"BT", b"Tf", b"TL", b"Tc", b"Tw", b"Tz", b"Ts", b"Tr", b"Td", b"TD", b"Tm", b"Tj", b"T*", b"TJ", b"'", b'"', b"ET", b"BMC", b"BDC", b"EMC",
+                     b"MP", b"DP", b"Do", b"d0", b"Q"}
+INLINE_ENTRIES = [(b"/W", b"1"), (b"/H", b"1"), (b"/BPC", b"8"), (b"/CS", b"/G"), (b"/F", b"/AHx"), (b"/DP", b"<< /K 0 >>"), (b"/IM", b"false"), (b"/I", b"true"), (b"/D", b"[0 1]")]
+
+
+def content_doc(content):
+    objs = seed_objects()
+    objs[5] = Stream({}, content)
+    objs[6] = {"Font": {"F1": Ref(3)}, "XObject": {"Im0": Ref(7), "Fm1": Ref(8)}, "ProcSet": ["PDF", "Text"], "ExtGState": {"GS0": {"LW": 2}},
+               "Shading": {"Sh0": {"ShadingType": 2, "ColorSpace": "DeviceGray", "Coords": [0, 0, 1, 1], "Function": {"FunctionType": 2, "Domain": [0, 1], "N": 1}}}}
+    objs[8] = Stream({"Type": "XObject", "Subtype": "Form", "BBox": [0, 0, 10, 10], "Resources": {"Font": {"F1": Ref(3)}}}, b"BT /F1 5 Tf (f) Tj ET")
+    return pdfgen.build(objs)
+
+
+def content_fault(kind, i, j):
+    """kind 'op': operand token i of CONTENT_TOKENS replaced by CONTENT_BAD[j] ('' = removed); kind 'inline': entry i of the inline image dictionary: value replaced /
+    j = len(CONTENT_BAD): key removed, +1: value only removed (odd count), +2: key duplicated"""
+    base = b" ".join(CONTENT_TOKENS)
+    if kind == "op":
+        toks = list(CONTENT_TOKENS)
+        toks[i] = CONTENT_BAD[j]
+        return b" ".join(t for t in toks if t != b"" or True).replace(b"  ", b" "), "operand %d (%r before %r) replaced by %r" % (i, CONTENT_TOKENS[i], next(t for t in CONTENT_TOKENS[i:] if t in CONTENT_OPERATORS), CONTENT_BAD[j])
+    ents = [list(e) for e in INLINE_ENTRIES]
+    k, v = ents[i]
+    if j < len(CONTENT_BAD):
+        ents[i][1] = CONTENT_BAD[j]
+        what = "inline image entry %s replaced by %r" % (k.decode(), CONTENT_BAD[j])
+    elif j == len(CONTENT_BAD):
+        del ents[i]
+        what = "inline image entry %s removed" % k.decode()
+    elif j == len(CONTENT_BAD) + 1:
+        ents[i] = [k]
+        what = "inline image entry %s left without a value" % k.decode()
+    else:
+        ents.insert(i, [k, v])
+        what = "inline image entry %s given twice" % k.decode()
+    inline = b"BI " + b" ".join(b" ".join(e) for e in ents) + b" ID 00>\nEI"
+    return base + b" " + inline + b" BT /F1 10 Tf 5 5 Td (z) Tj ET", what
+
+
+def h5_content(timeout=300, part=None, **kw):
+    """every operand of a content stream that uses every operator kind replaced by a value of another type (or removed), and every entry of an inline image dictionary
+    replaced / removed / left without a value / given twice: extract_text returns or raises an error of the library's family"""
+    operand_sites = [i for i, t in enumerate(CONTENT_TOKENS) if t not in CONTENT_OPERATORS]
+
+    def fn(ex):
+        if ex.choice(2, "where") == 0:
+            i = operand_sites[ex.choice(len(operand_sites), "site")]
+            j = ex.choice(len(CONTENT_BAD), "bad")
+            kind = "op"
+        else:
+            i = ex.choice(len(INLINE_ENTRIES), "entry")
+            j = ex.choice(len(CONTENT_BAD) + 3, "bad")
+            kind = "inline"
+        content, what = content_fault(kind, i, j)
+        r = run_extract(content_doc(content))
+        ex.require(r is None, "%s: %s" % (what, r), kind=kind, i=i, j=j)
+
+    def conc(m, info):
+        return {"what": "content", "kind": info["kind"], "i": info["i"], "j": info["j"]}
+    from pdfminer import high_level
+    return core.run_symx("H5_content", fn, [high_level.extract_text], {"content": "%d tokens using %d operator kinds; %d operand sites x %d replacement kinds" % (len(CONTENT_TOKENS), len(CONTENT_OPERATORS), len(operand_sites), len(CONTENT_BAD)),
+                                                                        "inline image": "%d entries x %d replacements / removal / missing value / duplicate" % (len(INLINE_ENTRIES), len(CONTENT_BAD))},
+                         timeout, concretize=conc, part=part)
+
+
 # ------------------------------------------------------------------------------------------ replay: through extract_text where possible
 def _doc_with_stream(attrs, payload):
     objs = seed_objects()
@@ -544,6 +623,10 @@ def replay(harness, inp):
         apply_fault(objs, tuple(inp["site"]), inp["kind"])
         r = run_extract(pdfgen.build(objs))
         return None if r is None else "seed document with object %d key /%s replaced by %s: %s" % (inp["site"][0], inp["site"][1], inp["kind"], r)
+    if what == "content":
+        content, desc = content_fault(inp["kind"], inp["i"], inp["j"])
+        r = run_extract(content_doc(content))
+        return None if r is None else "page content %r (%s): %s" % (content, desc, r)
     if what == "objstm":
         k, n = inp["kind"], inp["n"]
         if k == "ocut":
@@ -578,6 +661,8 @@ def jobs(tier):
         J.append(Job("H4_truncate:%d" % k, "h4_truncate", {"part": [k, 2, 5]}, 300, "H4_faults"))
     for k in range(2):
         J.append(Job("H4_objstm:%d" % k, "h4_objstm", {"part": [k, 2, 5]}, 300, "H4_faults"))
+    for k in range(2):
+        J.append(Job("H5_content:%d" % k, "h5_content", {"part": [k, 2, 4]}, 300, "H5_content"))
     if tier != "quick":
         for k in range(16):
             J.append(Job("H4_faults2:%d" % k, "h4_faults2", {"part": [k, 16, 10]}, 1800, "H4_faults"))
